@@ -98,6 +98,7 @@ type Stats struct {
 	hset         map[uint64]bool
 	out          string
 	last         *Case
+	curs         int
 }
 
 func newStats() *Stats {
@@ -133,6 +134,10 @@ func (s *Stats) write() {
 
 func (s *Stats) cur(c *Case) {
 	s.last = c
+	s.curs++
+	if s.curs%1000 == 0 {
+		s.write() // a shard stopped at the wall-clock budget still reports what it covered
+	}
 	if s.out != "" {
 		os.WriteFile(filepath.Join(s.out, "cur.json"), c.JSON(), 0o644)
 	}
